@@ -173,8 +173,29 @@ func famRefs(w *bufio.Writer, seed uint64, n int) error {
 		lastFile, lastCompactions := "", uint64(0)
 		var labels []sx
 		collOpen, storeOpen := true, true
+		// noteFile looks at the file of the store's current footer after every step (rounds may be in
+		// flight, reverts and re-opened collections write too): a new file without a compaction in
+		// between is the file switch of known finding F31.
+		noteFile := func() {
+			if !storeOpen || s == nil {
+				return
+			}
+			if fs, err := s.Snapshot(); err == nil && fs != nil {
+				name := moss.VerifDumpFooter(fs).FileName
+				fs.Close()
+				st, _ := s.Stats()
+				nc, _ := st["total_compactions"].(uint64)
+				if lastFile != "" && name != "" && name != lastFile && nc == lastCompactions {
+					emptyFooters++
+				}
+				if name != "" {
+					lastFile = name
+				}
+				lastCompactions = nc
+			}
+		}
 		for st := 0; st < steps; st++ {
-			choice := r.pick([]int{30, 12, 8, 8, 8, 6, 18, 4, 3, 3, 6, 7, 8})
+			choice := r.pick([]int{30, 12, 8, 14, 10, 6, 18, 4, 3, 3, 6, 7, 8})
 			if i == 0 {
 				choice = 0
 			}
@@ -225,21 +246,7 @@ func famRefs(w *bufio.Writer, seed uint64, n int) error {
 				// did this round make the store start a NEW data file without compacting?  That happens
 				// when nothing of the old footer survives into the new one (every collection that held
 				// persisted data was dropped): the old file then has no owner left (known finding F31)
-				if storeOpen {
-					if fs, err := s.Snapshot(); err == nil && fs != nil {
-						name := moss.VerifDumpFooter(fs).FileName
-						fs.Close()
-						st, _ := s.Stats()
-						nc, _ := st["total_compactions"].(uint64)
-						if lastFile != "" && name != "" && name != lastFile && nc == lastCompactions {
-							emptyFooters++
-						}
-						if name != "" {
-							lastFile = name
-						}
-						lastCompactions = nc
-					}
-				}
+				noteFile()
 			case 1: // collection snapshot
 				if !collOpen {
 					continue
@@ -330,7 +337,7 @@ func famRefs(w *bufio.Writer, seed uint64, n int) error {
 						note("reopen: %v", err)
 						collOpen, storeOpen = false, false
 					} else {
-						lastFile = ""
+						lastFile, lastCompactions = "", 0
 						labels = append(labels, L("reopen", cfg.Concern))
 					}
 				}
@@ -377,7 +384,6 @@ func famRefs(w *bufio.Writer, seed uint64, n int) error {
 						addSnap("store-snapshot", prev, 0)
 						if err := s.SnapshotRevert(prev); err == nil {
 							labels = append(labels, L("revert"))
-							lastFile = ""
 						} else {
 							labels = append(labels, L("revert-refused"))
 						}
@@ -397,6 +403,7 @@ func famRefs(w *bufio.Writer, seed uint64, n int) error {
 					labels = append(labels, L("closestore"))
 				}
 			}
+			noteFile()
 			recheck(fmt.Sprintf("step %d", st))
 		}
 		// close everything that is left, in a random order
